@@ -16,6 +16,9 @@ use crate::{
     io::reader::num::{read_i32_le, read_u32_le, read_u64_le},
 };
 
+// The count comes from the input: use it as a capacity hint only up to this bound.
+const MAX_PREALLOCATED_LEN: usize = 1 << 16;
+
 /// An error returned when CSI reference sequence bins fail to be read.
 #[derive(Debug)]
 pub enum ReadError {
@@ -75,8 +78,8 @@ where
 {
     let bin_count = read_bin_count(reader)?;
 
-    let mut bins = IndexMap::with_capacity(bin_count);
-    let mut index = BinnedIndex::with_capacity(bin_count);
+    let mut bins = IndexMap::with_capacity(bin_count.min(MAX_PREALLOCATED_LEN));
+    let mut index = BinnedIndex::with_capacity(bin_count.min(MAX_PREALLOCATED_LEN));
 
     let metadata_id = Bin::metadata_id(depth);
     let mut metadata = None;
